@@ -215,7 +215,8 @@ def run(ctx):
     excluded = 0
     for lang in ("c++", "c"):
         libs = smallgen.sample(xlib.library(lang=lang, for_fortran=True, rows=pyfront.PY_ROWS, results=pyfront.PY_RESULTS,
-                                            types=pyfront.PY_TYPES), ctx.seed + len(jobs), nlib if lang == "c++" else nlib // 2)
+                                            types=pyfront.PY_TYPES, ovl_sigs=pyfront.PY_OVL_SIGS),
+                               ctx.seed + len(jobs), nlib if lang == "c++" else nlib // 2)
         for lib in libs:
             excluded += sanitize(lib)
             jobs.append((len(jobs), lib, "python", None, False))
